@@ -210,6 +210,15 @@ fn program_small(c: &mut Case) {
     }
 }
 
+/// shapes up to 48x48 and long thin operands of 1025..1500 entries (beyond the ordinary bound of 12)
+fn program_large(c: &mut Case) {
+    if c.rng.bool(0.3) {
+        program_t::<f32>(c, 48, 8)
+    } else {
+        program_t::<f64>(c, 48, 8)
+    }
+}
+
 fn construct(c: &mut Case) {
     if c.rng.bool(0.3) {
         construct_t::<f32>(c)
@@ -231,6 +240,7 @@ fn main() {
         families: vec![
             Family::new("program", 40000, 800000, program),
             Family::new("program_small", 20000, 400000, program_small),
+            Family::new("program_large", 1500, 30000, program_large),
             Family::new("construct", 3000, 60000, construct),
         ],
         min_nontrivial: 8000,
